@@ -15,12 +15,13 @@ def main(tier: str) -> int:
                      "nunavut.lang._language.Language.get_option", "nunavut.cli._make_parser (its defaults)",
                      "nunavut.cli.runners.ArgparseRunner._create_language_context"]
     M = "h_C13"
-    T = 300 if tier == "quick" else 2400
+    T = 900 if tier == "quick" else 2400     # upper bounds only: measured walls are in evidence (condition_walls_s); 3x headroom and more
     names = ["merge_ref3", "sources_unmodified3", "result_independent_of_later_source_edits", "getters_never_default",
              "shorthand_group", "builder_isolation", "config_file_order_ignores_hash_order", "cli_defaults_never_displace_file_values"]
     if tier != "quick":
         names.append("merge_ref2k")
-    conds = [Cond(M, f, T, 60) for f in names if f != "shorthand_group"]
+    conds = [Cond(M, f, T, 60) for f in names if f not in ("shorthand_group", "cli_defaults_never_displace_file_values")]
+    conds += [Cond(M, "cli_defaults_never_displace_file_values", T, 120, dict(C13_FE=str(a), C13_FL=str(b))) for a in range(4) for b in range(4)]
     conds += [Cond(M, "shorthand_group", T, 60, dict(C13_STD=str(i))) for i in range(5)]
     conds += [Cond(M, "shorthand_unit", T, 60, dict(C13_STD=str(i))) for i in (3, 4)]
     conds += [Cond(M, "builder_chain", max(T, 600), 120, dict(C13_OVK=str(k), C13_ONECALL=str(o), C13_SMALL=("1" if tier == "quick" else "0")))
@@ -29,7 +30,7 @@ def main(tier: str) -> int:
                       value_kinds="absent | explicit int | DefaultValue(int) | map{x: explicit | default | map{y: int}}",
                       leaf_ints="unbounded symbolic", shorthand="5 std values x 256 explicit-option subsets",
                       builder_isolation="override values 0..3 x 0..3",
-                      cli="file endianness absent|little|big x flag absent|little|big x file/flag asserts (real argparse parser and runner)")
+                      cli="file endianness absent|little|big|any x flag absent|little|big|any x file/flag asserts (real argparse parser and runner)")
     rep.assumptions = ["documents drawn from the stated grammar only; wider/deeper maps are outside the bound",
                        "a map value counts as explicit (the code and docstring agree)",
                        "builder isolation is demanded across *different* builders only (documented), not for re-use of one builder"]
